@@ -50,10 +50,11 @@ def main():
 	bad = 0
 	with ThreadPoolExecutor(jobs) as ex:
 		for name, prop, res in ex.map(lambda d: one(d, tier), ds):
-			ok = res.get(prop) == 1
+			neutral = json.loads((VERIF / 'seeded' / name / 'meta.json').read_text()).get('neutralised_by')
+			ok = res.get(prop) == (0 if neutral else 1)
 			bad += not ok
-			print(('CAUGHT ' if ok else 'MISSED ') + f'{name:52s} {prop} {res}', flush=True)
-	print(f'{len(ds) - bad} of {len(ds)} seeded changes caught by the check of their own property')
+			print((('SILENT ' if neutral else 'CAUGHT ') if ok else ('ALARM  ' if neutral else 'MISSED ')) + f'{name:52s} {prop} {res}' + (f'  (no longer property-breaking since fix {neutral}: negative control)' if neutral else ''), flush=True)
+	print(f'{len(ds) - bad} of {len(ds)} seeded changes behave as expected (caught by the check of their own property; negative controls silent)')
 	return 1 if bad else 0
 
 
